@@ -478,6 +478,7 @@ pub fn check(prop: &str, tier: &str) -> i32 {
         "C13" => (total.layers_checked, total.layers_at_width, "every layer of every restricted/relaxed compilation of the C06 space with widths 1..5 on models where every state is impacted by every variable: number of states expanded (domain enumerations between two next_variable calls) <= max_width, except root layer and first layer below it in relaxed mode; plus the exhaustive grid of width combinators; non-trivial = compilations in which some layer expanded >= max_width states (the bound is tight there)"),
         _ => (total.viz_texts, total.viz_with_deleted, "every compilation of the listed scopes x ALL 64 VizConfig flag combinations x 3 diagrams: as_graphviz under catch_unwind, DOT reader accepts the text, node ids unique, labels hold exactly the requested fields, drawn edges (mapped through node labels) == multiset of arcs recorded from the Problem/Relaxation callbacks when show_deleted, sub-graph of it otherwise with no edge to/from a missing node, terminal node <=> feasible diagram with one edge per terminal-layer node; non-trivial = texts of diagrams containing deleted/merged nodes"),
     };
+    #[allow(unused_mut)]
     let mut cov = json!({
         "evaluations": evals, "distinct_nontrivial": nontrivial, "rule": rule, "samples": total.samples, "exhaustive": complete, "scopes": scopes,
         "model_instances": total.instances, "sub_problem_roots": total.roots, "infeasible_roots": total.infeasible_roots, "compilations": total.compilations,
@@ -489,6 +490,32 @@ pub fn check(prop: &str, tier: &str) -> i32 {
         "caps_hit": if complete { json!([]) } else { json!(["wall clock cap of the tier: see scopes[*].instances_done"]) },
     });
     if prop == "C13" { cov["width_combinator_grid"] = crate::gap::width_grid(&rep); }
+    if prop == "C12" || prop == "C13" {
+        // the same automaton / counter on every compilation triggered by real solver runs (second level compilations
+        // start from sub-problems produced by the library itself: their depth and path are checked too), long arcs included
+        use crate::bnb::{Mode, Plan as BPlan};
+        use crate::run::Cfg;
+        let cfgs = Cfg::full(&[1, 2, 3]);
+        let mk = |name: &str, variants: Vec<Variant>, rotate: bool, limit: Option<u64>| BPlan { fam: family(name), variants, rotate, cfgs: cfgs.clone(), mode: Mode::Plain, record: true, limit, par1: false };
+        let mut bp = vec![
+            mk("TM-B4", variants_ca(), true, Some(if th { 16384 } else { 3000 })),
+            mk("TM-N0.1", variants_ca(), true, None),
+            mk("TM-N1.1", variants_ca(), true, None),
+            mk("SP-4", variants_sp(), true, Some(if th { 5184 } else { 1500 })),
+            mk("KP-3", variants_kp(), true, Some(2000)),
+        ];
+        if prop == "C12" {
+            bp.push(mk("TM-N0.0irr", variants_irr(), true, None));
+            bp.push(mk("TM-N1.0irr", variants_irr(), true, None));
+            bp.push(mk("TM-N2.0irr", variants_irr(), true, None));
+            bp.push(mk("TM-N3.0irr", variants_irr(), true, None));
+            bp.push(mk("TM-B4irr", variants_irr(), true, Some(if th { 300_000 } else { 30_000 })));
+        }
+        let dl = Some(Instant::now() + Duration::from_secs(if th { 600 } else { 20 }));
+        let (agg, sc, ok) = crate::bnb::run_plans(&rep, &[prop], &bp, dl);
+        cov["solver_runs_part"] = json!({"scopes": sc, "complete": ok, "runs": agg.runs, "runs_with_2+_subproblems": agg.nontrivial, "restricted_compilations": agg.restricted, "relaxed_compilations": agg.relaxed, "merges": agg.merges, "relax_calls": agg.relax_calls, "layers_checked_for_width": agg.layers_checked, "monitor_hits_all_properties": agg.monitor_hits});
+        if !ok { cov["exhaustive"] = json!(false); }
+    }
     rep.finish("exploration", cov, vec![
         "compilations in isolation: EmptyCache, EmptyDominanceChecker, NoCutoff".to_string(),
         "oracle: exact value-to-go by backward DP / subset enumeration; completions enumerated exhaustively (<= 243 per root)".to_string(),
